@@ -628,8 +628,14 @@ func (p *Prog) VerifyFunc(fn *ssa.Function, opts VerifyOpts) *FuncResult {
 				q := vc.Query(map[*Obligation]bool{ob: true}, entry, true, "")
 				r := runSolvers(q, timeout, opts.Seed, fr.Key+" "+ob.Name)
 				// escalation before reporting undecided: other seeds change the instantiation order
+				// (and the last attempt gets four times the limit: an obligation that needs tens of seconds on an idle
+				// machine must not turn into an alarm when the machine is loaded)
 				for extra := 1; extra <= 3 && r.Status == "unknown" && !strings.Contains(r.Detail, ":error:"); extra++ {
-					r2 := runSolvers(q, timeout, opts.Seed+extra*7919, fr.Key+" "+ob.Name)
+					t := timeout
+					if extra == 3 {
+						t = 4 * timeout
+					}
+					r2 := runSolvers(q, t, opts.Seed+extra*7919, fr.Key+" "+ob.Name)
 					r2.Detail = r.Detail + " || retry: " + r2.Detail
 					r = r2
 				}
